@@ -2433,9 +2433,64 @@ def call(I, fr, name, fname, k, args, depth):
         return min(args[0], args[1])
     if fname.endswith("cmp::Ord::max") or name.endswith("::max") and "cmp" in name:
         return max(args[0], args[1])
+    if fname.endswith("cmp::PartialOrd::partial_cmp") or fname.endswith("cmp::Ord::cmp") or fname.endswith("cmp::PartialOrd::lt") or fname.endswith("cmp::PartialOrd::le") or fname.endswith("cmp::PartialOrd::gt") or fname.endswith("cmp::PartialOrd::ge"):
+        a, b = deref_val(I, args[0]), deref_val(I, args[1])
+        ra_, rb_ = args[0], args[1]
+        for _ in range(3):
+            if isinstance(a, Ref):
+                ra_, a = a, deref(I, a)
+            if isinstance(b, Ref):
+                rb_, b = b, deref(I, b)
+        meth_ = fname.rsplit("::", 1)[-1]
+        if isinstance(a, Adt) and isinstance(b, Adt) and a.path == b.path and not a.path.startswith(("core::", "std::", "alloc::", "model::", "closure:")):
+            tr_ = "Ord" if meth_ == "cmp" else "PartialOrd"
+            base_ = "cmp" if meth_ == "cmp" else "partial_cmp"
+            cands = [f_ for f_ in (I.P.fns.get("<%s as std::cmp::%s>::%s" % (a.path, tr_, base_)),) if f_ is not None]
+            if cands:
+                r_ = I.run(cands[0], [ra_ if isinstance(ra_, Ref) else tmp_ref(a), rb_ if isinstance(rb_, Ref) else tmp_ref(b)], depth + 1)
+                if meth_ in ("cmp", "partial_cmp"):
+                    return r_
+                o_ = r_.fields[0] if (isinstance(r_, Adt) and r_.path.endswith("Option") and r_.vi == 1) else None
+                if o_ is None:
+                    return 0
+                c_ = o_.vi - 1
+                return int({"lt": c_ < 0, "le": c_ <= 0, "gt": c_ > 0, "ge": c_ >= 0}[meth_])
+            raise Unsupported("ordering of crate type %s through references" % a.path)
+        if isinstance(a, (int, float)) and isinstance(b, (int, float)) and not (a != a or b != b):
+            c_ = (a > b) - (a < b)
+            ordv = Adt("core::cmp::Ordering", c_ + 1, ["Less", "Equal", "Greater"][c_ + 1], [])
+            if meth_ == "cmp":
+                return ordv
+            if meth_ == "partial_cmp":
+                return some(ordv)
+            return int({"lt": c_ < 0, "le": c_ <= 0, "gt": c_ > 0, "ge": c_ >= 0}[meth_])
     if fname.endswith("cmp::PartialEq::eq") or fname.endswith("cmp::PartialEq::ne"):
         a, b = deref_val(I, args[0]), deref_val(I, args[1])
         from .minimir import freeze
+
+        # `&A == &B` forwards to the referents' own PartialEq: a crate type's impl (hand-written or
+        # derived) decides, not structural identity (OwnedValue::Int(1) == OwnedValue::Float(1.0))
+        ra_, rb_ = args[0], args[1]
+        for _ in range(3):
+            if isinstance(a, Ref):
+                ra_, a = a, deref(I, a)
+            if isinstance(b, Ref):
+                rb_, b = b, deref(I, b)
+        if isinstance(a, Adt) and isinstance(b, Adt) and not a.path.startswith(("core::", "std::", "alloc::", "model::", "closure:")):
+            idx = getattr(I.P, "_peq_index", None)
+            if idx is None:
+                idx = {}
+                for fid_ in I.P.fns:
+                    m_ = re.match(r"^<([A-Za-z0-9_:]+)(<.*>)? as std::cmp::PartialEq(<.*>)?>::eq$", fid_)
+                    if m_ and (m_.group(3) is None or m_.group(1) in (m_.group(3) or "")):
+                        idx.setdefault(m_.group(1), []).append(fid_)
+                I.P._peq_index = idx
+            c_ = idx.get(a.path, [])
+            if len(c_) == 1 and a.path == b.path:
+                ra_ = ra_ if isinstance(ra_, Ref) else tmp_ref(a)
+                rb_ = rb_ if isinstance(rb_, Ref) else tmp_ref(b)
+                r_ = I.run(I.P.fns[c_[0]], [ra_, rb_], depth + 1)
+                return int(bool(r_) if fname.endswith("::eq") else not r_)
 
         def strlike(v):
             for _ in range(4):
